@@ -145,6 +145,16 @@ def build_and_audit(pid):
             if ok and any(x not in ("propext", "Classical.choice", "Quot.sound") for x in ax):
                 ok = False; out["forbidden"].append("%s uses %s" % (n, ax))
             out["theorems"].append({"name": n, "ok": ok, "axioms": ax})
+        # thorough tier: the toolchain's independent re-checker replays the compiled property modules in a fresh kernel
+        out["rechecked"] = None
+        if out["built"] and os.environ.get("VERIF_TIER_EFFECTIVE") == "thorough":
+            try:
+                rc = subprocess.run(["lake", "env", "leanchecker"] + targets, cwd=LEAN, capture_output=True, text=True, timeout=1800)
+                out["rechecked"] = rc.returncode == 0
+                if rc.returncode != 0:
+                    out["forbidden"].append("leanchecker rejects %s: %s" % (" ".join(targets), (rc.stdout + rc.stderr)[-300:]))
+            except Exception as e:      # the re-checker is an extra: if it cannot run, say so, do not alarm
+                out["rechecked"] = "not run: %s" % type(e).__name__
         # forbidden constructs in the sources
         g = subprocess.run(["grep", "-rnE", r"\bsorry\b|\badmit\b|native_decide|bv_decide|implemented_by|\bunsafe\b|maxHeartbeats 0|^axiom ", "--include=*.lean", "QuickAdd", "Driver.lean"], cwd=LEAN, capture_output=True, text=True)
         for l in g.stdout.splitlines():
@@ -164,9 +174,14 @@ def load_known(pid):
             m = re.match(r"finding: property=(\S+) key=input-regex:(\S+) probe=(\{.*?\}) (.*)$", l)
             if m and m.group(1) == pid:
                 rx = m.group(2)
+                # optional criteria after the input pattern: `;obs:<regex>` = the way it fails (the observed value), `;depth0-ok`
+                obs = None
+                if ";obs:" in rx:
+                    rx, obs = rx.split(";obs:", 1)
+                    if obs.endswith(";depth0-ok"): obs = obs[:-len(";depth0-ok")]; rx += ";depth0-ok"
                 d0 = rx.endswith(";depth0-ok")
                 if d0: rx = rx[:-len(";depth0-ok")]
-                findings.append({"regex": rx, "depth0": d0, "probe": json.loads(m.group(3)), "what": m.group(4)})
+                findings.append({"regex": rx, "depth0": d0, "obs": obs, "probe": json.loads(m.group(3)), "what": m.group(4)})
             m = re.match(r"fixed: property=(\S+) (\S+) (.*)$", l)
             if m and m.group(1) == pid:
                 fixed.append({"commit": m.group(2), "what": m.group(3)})
@@ -268,6 +283,7 @@ def main():
     os.makedirs(os.path.dirname(ev_path), exist_ok=True)
     violations = []       # (replay_path, no_failing_input_found)
     known_lines = []
+    os.environ["VERIF_TIER_EFFECTIVE"] = tier
     ba = build_and_audit(pid)
     broken = []           # names of obligations that no longer check
     obligations, discharged = 0, 0
@@ -336,6 +352,10 @@ def main():
                     # the key is matched against the input as given, against its normalised form and against that in lower case
                     # (separator and letter-case variants of a listed input are the same finding: C11's equivalences)
                     if x.get("text") is not None and any(re.search(f["regex"], v) for v in _variants(x["text"])):
+                        # a finding is identified by the input *and by the way it fails*: another wrong answer on a listed
+                        # input is another violation
+                        if f.get("obs") and not re.search(f["obs"], str(x.get("observed"))):
+                            continue
                         if f.get("depth0"):
                             o2 = dict(x.get("opts") or {}); o2["max_stack_depth"] = 0
                             r2 = eval_case((x["text"], tuple(x["ts"]) if x.get("ts") else None, {k: v for k, v in o2.items() if k in ("latent_time", "max_stack_depth", "relative_match_len")}))
@@ -402,7 +422,8 @@ def main():
            "distribution": (sweep or {}).get("distribution", {}), "traces_validated_against_impl": sum(v["cases"] for v in corr.values()),
            "regression_corpus_cases": corpus_n, "translator": ba["translator"], "broken_obligations": broken,
            "known_findings_matched": dict(matched) if not ba["import_error"] else {}, "known_findings_stale": stale if not ba["import_error"] else [],
-           "escalated": bool((sweep or {}).get("escalated"))}
+           "escalated": bool((sweep or {}).get("escalated")),
+           "independent_recheck": ba.get("rechecked")}       # thorough tier: `lake env leanchecker` on the property modules
     ev = {"property_id": pid, "tier": tier, "seed": seed, "level": "proof", "coverage": cov, "wall_s": round(wall, 1), "violations": len(violations),
           "assumptions": ["the hand-written model agrees with the code on the generated inputs (correspondence), not proved", "ranking of the intended reading by the pickled float model is observed by the sweep, not proved",
                           "third-party behaviour (regex, datetime, dateutil) is modelled"]}
